@@ -400,8 +400,6 @@ Proof.
   - apply bind_lift_le with (rest' := rest).
     + apply slice_loop_mirror; assumption.
     + intros v. cbn [fst snd lift]. right. reflexivity.
-  - exfalso. exact (Hp _ eq_refl).
-  - exfalso. exact (underlying_not_named _ _ _ _ _ Hut).
 Qed.
 
 (* ---- objects ---- *)
@@ -455,8 +453,6 @@ Proof.
   - cbv zeta. apply bind_lift_le with (rest' := rest).
     + apply struct_loop_mirror; assumption.
     + intros v. cbn [fst snd lift]. right. reflexivity.
-  - exfalso. exact (Hp _ eq_refl).
-  - exfalso. exact (underlying_not_named _ _ _ _ _ Hut).
 Qed.
 
 Theorem agrees_all : forall j, agrees j.
@@ -543,6 +539,22 @@ Qed.
 (* Part 7.  The main theorem                                                               *)
 (* ====================================================================================== *)
 
+(* the equation at every fuel from the explicit bound of unm_total_bound on *)
+Lemma unm_mirror_jdec_bound : forall pf o R t cur j rest f,
+  jtarget t = true ->
+  (length (mirror j ++ rest) * S (reg_depth R) + ty_depth t + 1 <= f)%nat ->
+  unm pf f o R t cur (mirror j ++ rest) =
+  match jdec pf o t cur j with Ok v => Ok (v, rest) | Err e => Err e | OutOfFuel => OutOfFuel end.
+Proof.
+  intros pf o R t cur j rest f Ht Hf.
+  pose proof (unm_total_bound pf o R t cur (mirror j ++ rest)) as Hne.
+  destruct (agrees_all pf o R j (length (mirror j ++ rest) * S (reg_depth R) + ty_depth t + 1)%nat
+              t cur rest Ht) as [H|H]; [contradiction|].
+  change (match jdec pf o t cur j with Ok v => Ok (v, rest) | Err e => Err e | OutOfFuel => OutOfFuel end)
+    with (lift (jdec pf o t cur j) rest).
+  eapply unm_fuel_mono; [exact H| |exact Hf]. rewrite <- H. exact Hne.
+Qed.
+
 (* item 2 *)
 Theorem unm_mirror_jdec : forall pf o R t cur j rest,
   jtarget t = true ->
@@ -552,26 +564,7 @@ Theorem unm_mirror_jdec : forall pf o R t cur j rest,
 Proof.
   intros pf o R t cur j rest Ht.
   exists (length (mirror j ++ rest) * S (reg_depth R) + ty_depth t + 1)%nat. intros f Hf.
-  pose proof (unm_total_bound pf o R t cur (mirror j ++ rest)) as Hne.
-  destruct (agrees_all pf o R j _ t cur rest Ht) as [H|H]; [contradiction|].
-  change (match jdec pf o t cur j with Ok v => Ok (v, rest) | Err e => Err e | OutOfFuel => OutOfFuel end)
-    with (lift (jdec pf o t cur j) rest).
-  eapply unm_fuel_mono; [exact H| |exact Hf]. rewrite <- H. exact Hne.
-Qed.
-
-(* the explicit fuel bound of the theorem above *)
-Corollary unm_mirror_jdec_bound : forall pf o R t cur j rest f,
-  jtarget t = true ->
-  (length (mirror j ++ rest) * S (reg_depth R) + ty_depth t + 1 <= f)%nat ->
-  unm pf f o R t cur (mirror j ++ rest) =
-  match jdec pf o t cur j with Ok v => Ok (v, rest) | Err e => Err e | OutOfFuel => OutOfFuel end.
-Proof.
-  intros pf o R t cur j rest f Ht Hf.
-  pose proof (unm_total_bound pf o R t cur (mirror j ++ rest)) as Hne.
-  destruct (agrees_all pf o R j _ t cur rest Ht) as [H|H]; [contradiction|].
-  change (match jdec pf o t cur j with Ok v => Ok (v, rest) | Err e => Err e | OutOfFuel => OutOfFuel end)
-    with (lift (jdec pf o t cur j) rest).
-  eapply unm_fuel_mono; [exact H| |exact Hf]. rewrite <- H. exact Hne.
+  apply unm_mirror_jdec_bound; assumption.
 Qed.
 
 (* item 3 *)
